@@ -7,6 +7,7 @@ import (
 	"go/ast"
 	"go/token"
 	"go/types"
+	"strings"
 )
 
 var runCounter int
@@ -131,6 +132,12 @@ func (vc *VC) verify() (obls []*Obligation, err error) {
 			s.assume(env.evalBool(kf.Expr))
 		}
 	}
+	if !spec.DeferredHandler && specMentions(spec, "$exited") {
+		s.ghost["$exited"] = False
+		s.ghost["$exitcode"] = IntLit(0)
+		vc.ghostTypes["$exited"] = types.Typ[types.Bool]
+		vc.ghostTypes["$exitcode"] = types.Typ[types.Int]
+	}
 	if spec.DeferredHandler {
 		s.ghost["$recovered"] = False
 		s.ghost["$exited"] = False
@@ -142,6 +149,7 @@ func (vc *VC) verify() (obls []*Obligation, err error) {
 	if specModifiesStream(spec) {
 		vc.streamPos(s) // the ghost stream length is a natural number
 	}
+	vc.initCallRecords(s, fi.Decl.Body, fi.Pkg.TypesInfo)
 	if spec.Propagates {
 		s.ghost["$failed"] = False
 		vc.ghostTypes["$failed"] = types.Typ[types.Bool]
@@ -225,4 +233,14 @@ func (vc *VC) obligeKeep(s *State, kind, site, desc string, pos token.Pos, goal 
 	pc := s.pc
 	vc.oblige(s, kind, site, desc, pos, goal)
 	s.pc = pc
+}
+
+// specMentions: some postcondition of the contract mentions the given ghost name.
+func specMentions(spec *FuncSpec, name string) bool {
+	for _, e := range spec.Ensures {
+		if strings.Contains(e.Src, name) {
+			return true
+		}
+	}
+	return false
 }
